@@ -66,7 +66,7 @@ MCNext ==
   \/ /\ S.pc = "exec" /\ LoopQuiet
      /\ \/ Exec("ok") /\ UNCHANGED env
         \/ /\ env.nfault < MaxFaults /\ S.cur.cmd \in DevCmds
-           /\ \E d \in FaultKinds : (d \in {"fail", "later"} => S.cur.cmd \in StatusCmds) /\ Exec(d)
+           /\ \E d \in FaultKinds : (d \in {"fail", "later", "nostatus"} => S.cur.cmd \in StatusCmds) /\ Exec(d)
            /\ Bump("nfault")
   \* (REMC follows the discipline of the harness, on which the monitors' accounting of suspender trips relies: what a
   \*  suspender operation has scheduled on the loop lands before the run task takes its next step; RE.tla itself allows
